@@ -140,12 +140,13 @@ INPUBS = ((0, False, False, 1, 'short'), (0, False, True, 1, 'nonascii'),
 def scenarios(ctx):
     q = ctx.quick
     out = []
-    for profile, clean in (('sub', False), ('pubsub', True), ('sub', True), ('pubsub', False)):
-        if q and (profile, clean) in (('sub', True), ('pubsub', False)):
+    for profile, clean, ver in (('sub', False, 4), ('pubsub', True, 3), ('sub', True, 4), ('pubsub', False, 3), ('sub', False, 3),
+                                ('pubsub', True, 4)):
+        if q and (profile, clean, ver) in (('sub', True, 4), ('pubsub', False, 3), ('sub', False, 3), ('pubsub', True, 4)):
             continue
-        init = (('connect', 0, clean, 0, 4), ('connack', 0, 0, False))
-        out.append(Std('%s-%s' % (profile, 'clean' if clean else 'persist'), profile=profile, init=init,
-                       connects=[(clean, 0, 4)], reconnects=[(False, 0, 4), (True, 0, 4)],
+        init = (('connect', 0, clean, 0, ver), ('connack', 0, 0, False))
+        out.append(Std('%s-%s-v%d' % (profile, 'clean' if clean else 'persist', ver), profile=profile, init=init,
+                       connects=[(clean, 0, ver)], reconnects=[(False, 0, ver), (True, 0, ver)],
                        inpubs=INPUBS, inrels=((1,), (2,), (3,)), closing=False,
                        budgets=dict(inpub=4 if q else 5, inrel=3 if q else 4, lose=2, rebuild=2, connect=2, connack=2)))
     return out
